@@ -5,6 +5,11 @@
 
 #include <foonathan/memory/allocator_storage.hpp>
 #include <foonathan/memory/memory_pool.hpp>
+#include <foonathan/memory/new_allocator.hpp>
+#include <foonathan/memory/debugging.hpp>
+#include <foonathan/memory/detail/lowlevel_allocator.hpp>
+
+#include <new>
 
 using namespace sim;
 namespace fm = foonathan::memory;
@@ -190,6 +195,36 @@ namespace ss
 
         using Pool = fm::memory_pool<fm::node_pool, fm::growing_block_allocator<sim::sim_lifo_allocator>>;
 
+        // a low-level allocator of the library's own making (lowlevel_allocator<Functor>: stateless, process-wide
+        // leak counter) on the simulated upstream; its counter is this harness's own instantiation, so its net
+        // can be asked for without ending the process
+        struct SimLL
+        {
+            static fm::allocator_info info() noexcept
+            {
+                return {"verif::sim_lowlevel_allocator", nullptr};
+            }
+            static void* allocate(std::size_t size, std::size_t) noexcept
+            {
+                return SimHeap::get().request(60, size, 16);
+            }
+            static void deallocate(void* p, std::size_t size, std::size_t) noexcept
+            {
+                SimHeap::get().release(60, p, size, 0, false);
+            }
+            static std::size_t max_node_size() noexcept
+            {
+                return std::size_t(-1);
+            }
+        };
+        using SimLowLevel = fm::detail::lowlevel_allocator<SimLL>;
+        using SimLLCounter =
+            fm::detail::global_leak_checker_impl<fm::detail::lowlevel_allocator_leak_handler<SimLL>>;
+
+        long g_leak_reports = 0;
+        long g_leak_amount  = 0;
+        unsigned g_new_handler_calls = 0;
+
         template <class Storage>
         void task_body(Storage& a, const std::vector<Op>& ops, bool composable, RunHash* hash)
         {
@@ -289,7 +324,7 @@ namespace ss
         heap.begin_op(0);
         using EmptyStateful = fm::allocator_storage<fm::direct_storage<EmptyStatefulProbe>, SimMutex>;
         std::unique_ptr<EmptyStateful> emptystateful;
-        switch (variant % 6)
+        switch (variant % 8)
         {
         case 5:
             EmptyStatefulProbe::state() = &st;
@@ -353,6 +388,91 @@ namespace ss
                             stateless->deallocate_node(p, 0, 8);
                     });
             break;
+        case 6:
+        case 7:
+        {
+            // stateless low-level allocators used concurrently as they are: variant 6 the library's
+            // lowlevel_allocator template (leak counter = an atomic every operation of which is a scheduling
+            // point, hook H2), variant 7 new_allocator with an upstream that is exhausted at drawn points and a
+            // std::new_handler that frees memory (get/set_new_handler are scheduling points)
+            static Shadow shadow;
+            shadow.reset();
+            g_upstream_hook     = [](const char* site) { sim_yield(site); };
+            g_new_handler_calls = 0;
+            const bool use_new  = variant % 8 == 7;
+            static fm::allocator_storage<fm::direct_storage<SimLowLevel>, SimMutex>     ts_ll{SimLowLevel{}};
+            static fm::allocator_storage<fm::direct_storage<fm::new_allocator>, SimMutex> ts_new{fm::new_allocator{}};
+            if (use_new)
+                std::set_new_handler(
+                    []
+                    {
+                        ++g_new_handler_calls;
+                        SimHeap::get().set_exhausted(false); // "frees memory": the retry will succeed
+                    });
+            for (int t = 0; t < ntasks; ++t)
+                sched.spawn(
+                    [&, t, use_new]
+                    {
+                        struct Mine
+                        {
+                            char*       p;
+                            std::size_t size;
+                        };
+                        std::vector<Mine> mine;
+                        auto              release = [&](std::size_t i)
+                        {
+                            auto m = mine[i];
+                            mine.erase(mine.begin() + (long)i);
+                            shadow.check(*shadow.find(m.p), "C13,C01", "before release");
+                            shadow.take(m.p);
+                            if (use_new)
+                                ts_new.deallocate_node(m.p, m.size, 8);
+                            else
+                                ts_ll.deallocate_node(m.p, m.size, 8);
+                        };
+                        try
+                        {
+                            for (auto& o : per[std::size_t(t)])
+                            {
+                                if (o.kind == "n" || o.kind == "a" || o.kind == "lk")
+                                {
+                                    auto size = 8 + std::size_t(o.arg(1)) % 100;
+                                    if (use_new && o.kind == "lk")
+                                        SimHeap::get().set_exhausted(true); // from now on until the handler ran
+                                    void* p = nullptr;
+                                    try
+                                    {
+                                        p = use_new ? ts_new.allocate_node(size, 8) : ts_ll.allocate_node(size, 8);
+                                    }
+                                    catch (const std::bad_alloc&)
+                                    {
+                                        Sched::get().fail("spurious_failure: a stateless low-level allocator "
+                                                          "reported out of memory although "
+                                                          + std::string(use_new ? "a new_handler that frees memory is "
+                                                                                  "installed" :
+                                                                                  "its upstream had memory"));
+                                        continue;
+                                    }
+                                    auto& a = shadow.add("C13,C01", p, size, 8, t, use_new ? sim::OWNER_NEW : 60,
+                                                         0, true);
+                                    shadow.fill(a);
+                                    mine.push_back({a.p, size});
+                                }
+                                else if (o.kind == "f" && !mine.empty())
+                                    release(std::size_t(o.arg(0)) % mine.size());
+                                else if (o.kind == "mx")
+                                    (void)(use_new ? ts_new.max_node_size() : ts_ll.max_node_size());
+                            }
+                            while (!mine.empty())
+                                release(mine.size() - 1);
+                        }
+                        catch (const Violation& v)
+                        {
+                            Sched::get().fail("shadow: " + v.cls + " " + v.facts);
+                        }
+                    });
+            break;
+        }
         default:
         {
             // a real pool: keeps C01 under contention (shared shadow; upstream calls are scheduling points)
@@ -409,12 +529,47 @@ namespace ss
         }
         sched.run();
         g_upstream_hook = nullptr;
+        if (variant % 8 == 7)
+        {
+            std::set_new_handler(nullptr);
+            heap.set_exhausted(false);
+            stats().hit("reach.new_handler_calls", g_new_handler_calls);
+        }
+        std::string leak_problem;
+        if (variant % 8 == 6 && !sched.deadlock && !sched.budget_exhausted)
+        {
+            // everything was released: the process-wide net of this allocator type must be zero. Ending the last
+            // counter object reports a non-zero net to the leak handler.
+            g_leak_reports = 0;
+            auto old = fm::set_leak_handler(
+                [](const fm::allocator_info&, std::ptrdiff_t amount)
+                {
+                    ++g_leak_reports;
+                    g_leak_amount = long(amount);
+                });
+            {
+                SimLLCounter::counter last;
+            }
+            fm::set_leak_handler(old);
+            if (g_leak_reports)
+            {
+                leak_problem = "leak_report_spurious: after balanced concurrent use the process-wide counter of a "
+                               "stateless low-level allocator reports a net of "
+                               + std::to_string(g_leak_amount) + " bytes";
+                // put the counter right again for the runs that follow in this process
+                SimLLCounter c;
+                if (g_leak_amount > 0)
+                    c.on_deallocate(std::size_t(g_leak_amount));
+                else
+                    c.on_allocate(std::size_t(-g_leak_amount));
+            }
+        }
         heap.end_op();
         hash.add(sched.schedule_hash());
         hash.add(st.calls);
         stats().hit("reach.scheduling_decisions", sched.steps);
         stats().hit("reach.preemptions", sched.preemptions);
-        stats().hit("variant." + std::to_string(variant % 6));
+        stats().hit("variant." + std::to_string(variant % 8));
         res.nontrivial = sched.preemptions >= 2;
         auto bad = [&](const char* cls, const std::string& facts)
         {
@@ -433,6 +588,13 @@ namespace ss
             bad("livelock", "step budget exhausted before all tasks finished");
             res.fatal = true;
         }
+        else if (sched.problem.empty() && !leak_problem.empty())
+        {
+            res.violated = true;
+            res.v.prop   = "C13,C15";
+            res.v.cls    = "leak_report_spurious";
+            res.v.facts  = leak_problem;
+        }
         else if (!sched.problem.empty())
         {
             auto colon = sched.problem.find(':');
@@ -441,10 +603,12 @@ namespace ss
                 cls = "mutex_protocol";
             bad(cls.c_str(), sched.problem);
         }
-        else if (variant % 6 == 3 && SimMutex::locks_taken() != 0)
+        else if (variant % 8 == 3 && SimMutex::locks_taken() != 0)
             bad("stateless_locked", "a stateless allocator was wrapped with a real mutex ("
                                         + std::to_string(SimMutex::locks_taken()) + " lock operations)");
-        else if (variant % 6 != 3 && variant % 6 != 4 && st.occupancy != 0)
+        else if ((variant % 8 == 6 || variant % 8 == 7) && SimMutex::locks_taken() != 0)
+            bad("stateless_locked", "a stateless low-level allocator was wrapped with a real mutex");
+        else if ((variant % 8 < 3 || variant % 8 == 5) && st.occupancy != 0)
             bad("overlap", "occupancy counter not back to zero");
         if (res.fatal)
             return; // parked threads reference the objects above: leak them
